@@ -9,6 +9,7 @@ package k12
 
 import (
 	"fmt"
+	"os"
 	"sync"
 	"testing"
 
@@ -196,6 +197,9 @@ func c15KCustomLens(r *verifmc.Run) []int {
 // configuration (the 2-way permutation is the scalar one on amd64), so outside the default
 // configuration only lanes = 4 is searched (AVX2 assembly vs scalar 4-way).
 func TestVerifC15_k12(t *testing.T) {
+	if os.Getenv("VERIF_CONFIG") == "appengine" {
+		t.Skip("appengine only switches the sponge's xor back-end; K12 on that back-end is covered by k12_lengths, xof and expander")
+	}
 	r := verifmc.Start(t, "C15", "k12")
 	defer r.Finish()
 	if err := keccak.SelfTest(); err != nil {
